@@ -77,6 +77,12 @@ def judge(model, step, resp):
             probs.append(f"{op} returned {sri}, expected {model.expected_sri(algo, data)}")
         model.store(sri, data)
         return probs, v
+    if op == "index_insert" and step.get("unusable"):
+        # a raw index record whose integrity cannot address content (no hash, truncated digest, unknown algorithm):
+        # every reader skips it like a damaged line, so neither lookups nor listings change
+        if v != "Ok":
+            probs.append(f"index_insert({req['key']!r}) of a record with an unusable integrity failed: {ev.brief(resp)}")
+        return probs, v
     if op in ("remove", "remove_opts", "index_delete"):
         model.remove(req["key"])
         if v != "Ok":
